@@ -35,8 +35,10 @@ def _init(H):
 
 def _outcome(sv, text, **kw):
     try:
-        sv.compile(text, **kw)
+        common.guard(lambda: sv.compile(text, **kw), 20)
         return 'ok'
+    except common.CallTimeout:
+        return 'NoTermination: compile() did not return within 20 s'
     except sv.SelectorSyntaxError:
         return 'SelectorSyntaxError'
     except NotImplementedError:
